@@ -67,8 +67,10 @@ SPECS["Header::deserialise"] = {"props": ["C03"], "contract": """    requires ol
     ensures """ + BUF_FRAME + """
         r is Ok <==> old(buffer).position + 4 <= old(buffer).octets@.len(),
         r is Ok ==> final(buffer).position == old(buffer).position + 4 && r->Ok_0.id == be16(old(buffer).octets@[old(buffer).position as int], old(buffer).octets@[old(buffer).position + 1]), // [C03:header_id]
+        r is Ok ==> r->Ok_0 == header_unpack(r->Ok_0.id, old(buffer).octets@[old(buffer).position + 2], old(buffer).octets@[old(buffer).position + 3]), // [C03,C04:header_flags_read_as_rfc1035]
         r is Err && old(buffer).position + 2 <= old(buffer).octets@.len() ==> err_id(r->Err_0) == Some(be16(old(buffer).octets@[old(buffer).position as int], old(buffer).octets@[old(buffer).position + 1])), // [C03:error_carries_id]
         r is Err && old(buffer).position + 2 > old(buffer).octets@.len() ==> err_id(r->Err_0) is None,"""}
+SPECS["Header::deserialise"]["anchors"] = [{"after": "let flags2 = buffer.next_u8().ok_or(Error::HeaderTooShort(id))?;", "proof": "proof { lemma_header_decode_bits(flags1, flags2); }"}]
 SPECS["Question::deserialise"] = {"props": ["C03"], "contract": """    requires old(buffer).wf(),
     ensures """ + BUF_FRAME + """
         r is Ok ==> r->Ok_0.name.wf(), // [C03,C16:decoded_name_wf]
@@ -81,6 +83,7 @@ SPECS["ResourceRecord::deserialise"] = {"props": ["C03"], "rewrites": [("R6", r6
 SPECS["Message::deserialise"] = {"props": ["C03"], "contract": """    requires old(buffer).wf(), old(buffer).position == 0,
     ensures """ + BUF_FRAME + """
         r is Ok ==> old(buffer).octets@.len() >= 12 && msg_counts_ok(r->Ok_0, old(buffer).octets@), // [C03:section_lengths_equal_header_counts]
+        r is Ok ==> r->Ok_0.header == header_unpack(be16(old(buffer).octets@[0], old(buffer).octets@[1]), old(buffer).octets@[2], old(buffer).octets@[3]), // [C03,C04:header_flags_read_as_rfc1035]
         r is Err && old(buffer).octets@.len() >= 2 ==> err_id(r->Err_0) == Some(be16(old(buffer).octets@[0], old(buffer).octets@[1])), // [C03:error_carries_id]
         r is Err && old(buffer).octets@.len() < 2 ==> err_id(r->Err_0) is None,""",
     "loops": {str(k): {"kw": "for", "iter_name": "it__", "spec": f"""            invariant buffer.wf(), buffer.octets == old(buffer).octets, buffer.position >= old(buffer).position,
@@ -89,6 +92,7 @@ SPECS["Message::deserialise"] = {"props": ["C03"], "contract": """    requires o
 SPECS["Message::from_octets"] = {"props": ["C03"], "contract": """    requires octets@.len() <= 0xffff,
     ensures
         r is Ok ==> octets@.len() >= 12 && msg_counts_ok(r->Ok_0, octets@), // [C03:section_lengths_equal_header_counts]
+        r is Ok ==> r->Ok_0.header == header_unpack(be16(octets@[0], octets@[1]), octets@[2], octets@[3]), // [C03,C04:header_flags_read_as_rfc1035]
         r is Err && octets@.len() >= 2 ==> err_id(r->Err_0) == Some(be16(octets@[0], octets@[1])), // [C03:error_carries_id]
         r is Err && octets@.len() < 2 ==> err_id(r->Err_0) is None, // [C03:no_id_only_below_two_bytes]"""}
 
